@@ -44,3 +44,99 @@ package genetics
 //@     invariant -1 <= i && i <= index - 1 && index <= len(nodes)
 //@     invariant index == len(nodes) ==> (forall k :: i < k && k < len(nodes) ==> n.Id < nodes[k].Id)
 //@     invariant index == 0 ==> n.Id <= nodes[0].Id
+
+// ---- C06: copy constructors and duplication -----------------------------------------------------
+//@ pred nonNilTraits(ts []*neat.Trait) = forall i :: 0 <= i && i < len(ts) ==> ts[i] != nil
+//@ func NewGeneCopy
+//@   props C06 C04 C10
+//@   requires g != nil && g.Link != nil
+//@   modifies nothing
+//@   ensures [fresh] fresh(result) && fresh(result.Link)
+//@   ensures [numbers] result.InnovationNum == g.InnovationNum && result.MutationNum == g.MutationNum
+//@   ensures [enabled] result.IsEnabled == g.IsEnabled
+//@   ensures [link] result.Link.ConnectionWeight == g.Link.ConnectionWeight && result.Link.IsRecurrent == g.Link.IsRecurrent
+//@   ensures [ends] result.Link.InNode == inNode && result.Link.OutNode == outNode && result.Link.Trait == trait
+//@ func TraitWithId
+//@   props C06
+//@   requires nonNilTraits(traits)
+//@   modifies nothing
+//@   noalloc
+//@   ensures [found] result != nil ==> result.Id == traitId && traitId != 0 && (exists i :: 0 <= i && i < len(traits) && traits[i] == result)
+//@   ensures [absent] result == nil ==> traitId == 0 || (forall i :: 0 <= i && i < len(traits) ==> traits[i].Id != traitId)
+//@   loop 1:
+//@     invariant -1 <= #idx && #idx < len(traits)
+//@     invariant forall i :: 0 <= i && i <= #idx ==> traits[i].Id != traitId
+//@ func (*Genome).duplicateGenes
+//@   props C06
+//@   requires g != nil && nonNilGenes(g.Genes) && nonNilTraits(traits)
+//@   requires forall i :: 0 <= i && i < len(g.Genes) ==> g.Genes[i].Link != nil && g.Genes[i].Link.InNode != nil && g.Genes[i].Link.OutNode != nil
+//@   requires [endpointsMapped] forall i :: 0 <= i && i < len(g.Genes) ==> mapHas(nodeIdMap, g.Genes[i].Link.InNode.Id) && mapHas(nodeIdMap, g.Genes[i].Link.OutNode.Id)
+//@   modifies nothing
+//@   ensures [noerr] result1 == nil
+//@   ensures [len] len(result0) == len(g.Genes)
+//@   ensures [fresh] forall i :: 0 <= i && i < len(result0) ==> fresh(result0[i]) && fresh(result0[i].Link)
+//@   ensures [numbers] forall i :: 0 <= i && i < len(result0) ==> result0[i].InnovationNum == g.Genes[i].InnovationNum && result0[i].MutationNum == g.Genes[i].MutationNum
+//@   ensures [enabled] forall i :: 0 <= i && i < len(result0) ==> result0[i].IsEnabled == g.Genes[i].IsEnabled
+//@   ensures [link] forall i :: 0 <= i && i < len(result0) ==> result0[i].Link.ConnectionWeight == g.Genes[i].Link.ConnectionWeight && result0[i].Link.IsRecurrent == g.Genes[i].Link.IsRecurrent
+//@   ensures [ends] forall i :: 0 <= i && i < len(result0) ==> result0[i].Link.InNode == nodeIdMap[g.Genes[i].Link.InNode.Id] && result0[i].Link.OutNode == nodeIdMap[g.Genes[i].Link.OutNode.Id]
+//@   ensures [trait] forall i :: 0 <= i && i < len(result0) ==> (g.Genes[i].Link.Trait == nil ==> result0[i].Link.Trait == nil) && (result0[i].Link.Trait != nil ==> g.Genes[i].Link.Trait != nil && result0[i].Link.Trait.Id == g.Genes[i].Link.Trait.Id)
+//@   ensures [endsMapped] forall i :: 0 <= i && i < len(result0) ==> mapHas(nodeIdMap, g.Genes[i].Link.InNode.Id) && mapHas(nodeIdMap, g.Genes[i].Link.OutNode.Id)
+//@   ensures [endIds] (forall k :: mapHas(nodeIdMap, k) ==> nodeIdMap[k] != nil && nodeIdMap[k].Id == k) ==> (forall i :: 0 <= i && i < len(result0) ==> result0[i].Link.InNode != nil && result0[i].Link.OutNode != nil && result0[i].Link.InNode.Id == g.Genes[i].Link.InNode.Id && result0[i].Link.OutNode.Id == g.Genes[i].Link.OutNode.Id)
+//@   loop 1:
+//@     invariant -1 <= #idx && #idx < len(g.Genes) && len(genesDup) == len(g.Genes) && fresh(genesDup)
+//@     invariant forall i :: 0 <= i && i <= #idx ==> genesDup[i] != nil && fresh(genesDup[i]) && genesDup[i].Link != nil && fresh(genesDup[i].Link)
+//@     invariant forall i :: 0 <= i && i <= #idx ==> genesDup[i].InnovationNum == g.Genes[i].InnovationNum && genesDup[i].MutationNum == g.Genes[i].MutationNum
+//@     invariant forall i :: 0 <= i && i <= #idx ==> genesDup[i].IsEnabled == g.Genes[i].IsEnabled
+//@     invariant forall i :: 0 <= i && i <= #idx ==> genesDup[i].Link.ConnectionWeight == g.Genes[i].Link.ConnectionWeight && genesDup[i].Link.IsRecurrent == g.Genes[i].Link.IsRecurrent
+//@     invariant forall i :: 0 <= i && i <= #idx ==> genesDup[i].Link.InNode == nodeIdMap[g.Genes[i].Link.InNode.Id] && genesDup[i].Link.OutNode == nodeIdMap[g.Genes[i].Link.OutNode.Id]
+//@     invariant forall i :: 0 <= i && i <= #idx ==> (g.Genes[i].Link.Trait == nil ==> genesDup[i].Link.Trait == nil) && (genesDup[i].Link.Trait != nil ==> g.Genes[i].Link.Trait != nil && genesDup[i].Link.Trait.Id == g.Genes[i].Link.Trait.Id)
+//@ func (*Genome).duplicateNodes
+//@   props C06
+//@   requires g != nil && nonNilNodes(g.Nodes) && nonNilTraits(traits)
+//@   requires sortedNodesLT(g.Nodes)
+//@   modifies nothing
+//@   ensures [len] len(result0) == len(g.Nodes) && result1 != nil
+//@   ensures [fresh] fresh(result0) && fresh(result1) && (forall i :: 0 <= i && i < len(result0) ==> fresh(result0[i]))
+//@   ensures [genetic] forall i :: 0 <= i && i < len(result0) ==> result0[i].Id == g.Nodes[i].Id && result0[i].NeuronType == g.Nodes[i].NeuronType && result0[i].ActivationType == g.Nodes[i].ActivationType
+//@   ensures [trait] forall i :: 0 <= i && i < len(result0) ==> (g.Nodes[i].Trait == nil ==> result0[i].Trait == nil) && (result0[i].Trait != nil ==> g.Nodes[i].Trait != nil && result0[i].Trait.Id == g.Nodes[i].Trait.Id)
+//@   ensures [mapped] forall i :: 0 <= i && i < len(result0) ==> mapHas(result1, g.Nodes[i].Id)
+//@   ensures [mapvals] forall k :: mapHas(result1, k) ==> result1[k] != nil && fresh(result1[k]) && result1[k].Id == k
+//@   ensures [lookup] forall i :: 0 <= i && i < len(result0) ==> result1[g.Nodes[i].Id] == result0[i]
+//@   loop 1:
+//@     invariant -1 <= #idx && #idx < len(g.Nodes) && len(nodesDup) == len(g.Nodes) && fresh(nodesDup) && nodeIdMap != nil && fresh(nodeIdMap)
+//@     invariant forall i :: 0 <= i && i <= #idx ==> nodesDup[i] != nil && fresh(nodesDup[i])
+//@     invariant forall i :: 0 <= i && i <= #idx ==> nodesDup[i].Id == g.Nodes[i].Id && nodesDup[i].NeuronType == g.Nodes[i].NeuronType && nodesDup[i].ActivationType == g.Nodes[i].ActivationType
+//@     invariant forall i :: 0 <= i && i <= #idx ==> (g.Nodes[i].Trait == nil ==> nodesDup[i].Trait == nil) && (nodesDup[i].Trait != nil ==> g.Nodes[i].Trait != nil && nodesDup[i].Trait.Id == g.Nodes[i].Trait.Id)
+//@     invariant forall i :: 0 <= i && i <= #idx ==> mapHas(nodeIdMap, g.Nodes[i].Id)
+//@     invariant forall k :: mapHas(nodeIdMap, k) ==> nodeIdMap[k] != nil && fresh(nodeIdMap[k]) && nodeIdMap[k].Id == k && (exists j :: 0 <= j && j <= #idx && g.Nodes[j].Id == k)
+//@     invariant forall i :: 0 <= i && i <= #idx ==> nodeIdMap[g.Nodes[i].Id] == nodesDup[i]
+//@ pred geneLinksWF(gs []*Gene) = forall i :: 0 <= i && i < len(gs) ==> gs[i].Link != nil && gs[i].Link.InNode != nil && gs[i].Link.OutNode != nil
+//@ pred endpointsAreNodes(g *Genome) = forall i :: 0 <= i && i < len(g.Genes) ==> (exists a :: 0 <= a && a < len(g.Nodes) && g.Nodes[a].Id == g.Genes[i].Link.InNode.Id) && (exists b :: 0 <= b && b < len(g.Nodes) && g.Nodes[b].Id == g.Genes[i].Link.OutNode.Id)
+//@ func (*Genome).duplicate
+//@   props C06 C10
+//@   requires g != nil && nonNilTraits(g.Traits) && nonNilNodes(g.Nodes) && nonNilGenes(g.Genes) && geneLinksWF(g.Genes)
+//@   requires endpointsAreNodes(g)
+//@   requires sortedNodesLT(g.Nodes)
+//@   requires len(g.ControlGenes) == 0
+//@   modifies nothing
+//@   ensures [noerr] result1 == nil && result0 != nil && fresh(result0)
+//@   ensures [id] result0.Id == newId
+//@   ensures [traits] len(result0.Traits) == len(g.Traits) && (forall i :: 0 <= i && i < len(g.Traits) ==> fresh(result0.Traits[i]) && result0.Traits[i].Id == g.Traits[i].Id && len(result0.Traits[i].Params) == len(g.Traits[i].Params) && fresh(result0.Traits[i].Params))
+//@   ensures [traitParams] forall i :: 0 <= i && i < len(g.Traits) ==> seq(result0.Traits[i].Params) == seq(g.Traits[i].Params)
+//@   ensures [nodes] len(result0.Nodes) == len(g.Nodes) && (forall i :: 0 <= i && i < len(g.Nodes) ==> fresh(result0.Nodes[i]) && result0.Nodes[i].Id == g.Nodes[i].Id && result0.Nodes[i].NeuronType == g.Nodes[i].NeuronType && result0.Nodes[i].ActivationType == g.Nodes[i].ActivationType)
+//@   ensures [nodeTraits] forall i :: 0 <= i && i < len(g.Nodes) ==> (g.Nodes[i].Trait == nil ==> result0.Nodes[i].Trait == nil) && (result0.Nodes[i].Trait != nil ==> g.Nodes[i].Trait != nil && result0.Nodes[i].Trait.Id == g.Nodes[i].Trait.Id)
+//@   ensures [genes] len(result0.Genes) == len(g.Genes) && (forall i :: 0 <= i && i < len(g.Genes) ==> fresh(result0.Genes[i]) && fresh(result0.Genes[i].Link) && result0.Genes[i].InnovationNum == g.Genes[i].InnovationNum && result0.Genes[i].MutationNum == g.Genes[i].MutationNum && result0.Genes[i].IsEnabled == g.Genes[i].IsEnabled)
+//@   ensures [links] forall i :: 0 <= i && i < len(g.Genes) ==> result0.Genes[i].Link.ConnectionWeight == g.Genes[i].Link.ConnectionWeight && result0.Genes[i].Link.IsRecurrent == g.Genes[i].Link.IsRecurrent && result0.Genes[i].Link.InNode.Id == g.Genes[i].Link.InNode.Id && result0.Genes[i].Link.OutNode.Id == g.Genes[i].Link.OutNode.Id
+//@   ensures [ownNodes] forall i :: 0 <= i && i < len(g.Genes) ==> fresh(result0.Genes[i].Link.InNode) && fresh(result0.Genes[i].Link.OutNode)
+//@   ensures [nodeMapHas] forall i :: 0 <= i && i < len(g.Nodes) ==> mapHas(result0.nodeByIdMap, g.Nodes[i].Id)
+//@   ensures [nodeMap] forall i :: 0 <= i && i < len(g.Nodes) ==> result0.nodeByIdMap[g.Nodes[i].Id] == result0.Nodes[i]
+//@   ensures [geneTraits] forall i :: 0 <= i && i < len(g.Genes) ==> (g.Genes[i].Link.Trait == nil ==> result0.Genes[i].Link.Trait == nil) && (result0.Genes[i].Link.Trait != nil ==> g.Genes[i].Link.Trait != nil && result0.Genes[i].Link.Trait.Id == g.Genes[i].Link.Trait.Id)
+//@   loop 1:
+//@     invariant -1 <= #idx && #idx < len(g.Traits) && len(traitsDup) == len(g.Traits) && fresh(traitsDup)
+//@     invariant forall i :: 0 <= i && i <= #idx ==> traitsDup[i] != nil && fresh(traitsDup[i]) && traitsDup[i].Id == g.Traits[i].Id && len(traitsDup[i].Params) == len(g.Traits[i].Params) && fresh(traitsDup[i].Params)
+//@     invariant forall i :: 0 <= i && i <= #idx ==> allocated(traitsDup[i]) && (traitsDup[i].Params == nil || allocated(traitsDup[i].Params))
+//@     invariant forall i :: 0 <= i && i <= #idx ==> seq(traitsDup[i].Params) == seq(g.Traits[i].Params)
+// Modular genomes: duplication of control genes is outside the contracts of this revision; the
+// precondition makes every verified caller prove that it never reaches this function.
+//@ func (*Genome).duplicateControlGenes
+//@   requires [nonModularOnly] false
